@@ -77,6 +77,11 @@ def tcp_hdr_len(b0):
     return (2 if l < 13 else 3 if l == 13 else 4 if l == 14 else 6) + (1 if t == 13 else 2 if t == 14 else 0)
 
 
+def frame_code(f):
+    l = f[0] >> 4
+    return f[(2 if l < 13 else 3 if l == 13 else 4 if l == 14 else 6) - 1]
+
+
 def gen_tcp_stream(r, small=False, allow_big=True):
     """-> (stream bytes, meta) ; meta: kinds, message starts, 'hot' cut offsets (inside headers),
     tail kind"""
@@ -115,7 +120,8 @@ def gen_tcp_stream(r, small=False, allow_big=True):
         h += bytes([r.randrange(256)]) * (1 if tkl == 13 else 2 if tkl == 14 else 0)
         parts.append(h + gen_wire.rbytes(r, r.choice([0, 0, 1, 5, 40])))
         hot.extend(range(pos + 1, pos + len(h) + 1))
-        tail = "oversize"
+        tsz = tkl if tkl < 13 else h[6] + 14 if tkl == 13 else (h[6] << 8) + h[7] + 271
+        tail = "oversize" if ext + 65805 + tsz > HARD - 6 else "hugepartial"
     elif x < 0.30:
         # malformed but framed: TKL 15, reserved option nibble, marker without payload
         f, _ = gen_tcp_msg(r, "req")
@@ -135,7 +141,12 @@ def gen_tcp_stream(r, small=False, allow_big=True):
             g, _ = gen_tcp_msg(r, "ping")
             parts.append(g)
     stream = b"".join(parts)
-    return stream, {"kinds": kinds, "starts": starts, "hot": [h for h in hot if h < len(stream)], "tail": tail}
+    expect = None
+    if tail in ("none", "partial", "hugepartial", "oversize"):
+        # by construction: these messages, in this order, then (oversize) the close
+        expect = ([frame_code(f) for f in parts[:n]], 1 if tail == "oversize" else 0)
+    return stream, {"kinds": kinds, "starts": starts, "hot": [h for h in hot if h < len(stream)], "tail": tail,
+                    "expect": expect}
 
 
 def cuts_to_token(cut_points, n):
